@@ -6,7 +6,8 @@ def T(name, variant, *args, **kw):
 CHECK = {
   'id': 'C03',
   'level': 'model_checking',
-  'rule': ('explicit-state BFS to fixpoint over histories of set(k,v)/rem(k)/resize(0)/A=copy(A)/assign-into-empty/assign-into-nonempty '
+  'rule': ('explicit-state BFS to fixpoint over histories of set(k,v)/rem(k)/resize(0)/A=copy(A)/assign-into-empty/assign-into-nonempty/'
+           'A=new(Tree,K,V,bindings...) and (alias=1) set(t, k, v) with k the key object yielded by the tree\'s own iteration '
            '(rem of an absent key is a self-loop that must raise KeyError and change nothing) on one real Tree over the key universe '
            '0..N-1 (Int keys, String keys "k00".., Probe keys+values with a constructor/destructor ledger); a state is the concrete '
            'tree: exact shape + colours + keys + values (white-box, Tree.c compiled into the harness), so every reachable red-black '
@@ -35,14 +36,16 @@ CHECK = {
   'instances': {
     'quick': [
       T('int11', 'base', 'keys=int', 'nkeys=11', 'nvals=1'),
-      T('int7x2', 'base', 'keys=int', 'nkeys=7', 'nvals=2'),
+      T('int7x2', 'base', 'keys=int', 'nkeys=7', 'nvals=2', 'alias=1'),
       T('int9-asan', 'asan', 'keys=int', 'nkeys=9', 'nvals=1'),
-      T('int5x2-asan', 'asan', 'keys=int', 'nkeys=5', 'nvals=2'),
+      T('int5x2-asan', 'asan', 'keys=int', 'nkeys=5', 'nvals=2', 'alias=1'),
       T('str10', 'base', 'keys=str', 'nkeys=10', 'nvals=1'),
-      T('str6x2', 'base', 'keys=str', 'nkeys=6', 'nvals=2'),
+      T('str6x2', 'base', 'keys=str', 'nkeys=6', 'nvals=2', 'alias=1'),
+      T('str4x2-alias-asan', 'asan', 'keys=str', 'nkeys=4', 'nvals=2', 'alias=1'),
       T('str8-asan', 'asan', 'keys=str', 'nkeys=8', 'nvals=1'),
       T('probe10', 'base', 'keys=probe', 'vals=probe', 'prop=C05', 'nkeys=10', 'nvals=1'),
-      T('probe6x2', 'base', 'keys=probe', 'vals=probe', 'prop=C05', 'nkeys=6', 'nvals=2'),
+      T('probe6x2', 'base', 'keys=probe', 'vals=probe', 'prop=C05', 'nkeys=6', 'nvals=2', 'alias=1'),
+      T('probe5x2-asan', 'asan', 'keys=probe', 'vals=probe', 'prop=C05', 'nkeys=5', 'nvals=2', 'alias=1'),
       T('probe8-asan', 'asan', 'keys=probe', 'vals=probe', 'prop=C05', 'nkeys=8', 'nvals=1'),
       T('ladder-int', 'base', 'mode=ladder', 'keys=int', 'sizes=1,2,3,7,16,33,100,300,1000,4000,10000'),
       T('ladder-str', 'base', 'mode=ladder', 'keys=str', 'sizes=100,1000,4000'),
@@ -50,14 +53,16 @@ CHECK = {
     ],
     'thorough': [
       T('int14', 'base', 'keys=int', 'nkeys=14', 'nvals=1'),
-      T('int9x2', 'base', 'keys=int', 'nkeys=9', 'nvals=2'),
+      T('int9x2', 'base', 'keys=int', 'nkeys=9', 'nvals=2', 'alias=1'),
       T('int12-asan', 'asan', 'keys=int', 'nkeys=12', 'nvals=1'),
-      T('int7x2-asan', 'asan', 'keys=int', 'nkeys=7', 'nvals=2'),
+      T('int7x2-asan', 'asan', 'keys=int', 'nkeys=7', 'nvals=2', 'alias=1'),
       T('str12', 'base', 'keys=str', 'nkeys=12', 'nvals=1'),
-      T('str8x2', 'base', 'keys=str', 'nkeys=8', 'nvals=2'),
+      T('str8x2', 'base', 'keys=str', 'nkeys=8', 'nvals=2', 'alias=1'),
+      T('str6x2-alias-asan', 'asan', 'keys=str', 'nkeys=6', 'nvals=2', 'alias=1'),
       T('str10-asan', 'asan', 'keys=str', 'nkeys=10', 'nvals=1'),
       T('probe12', 'base', 'keys=probe', 'vals=probe', 'prop=C05', 'nkeys=12', 'nvals=1'),
-      T('probe8x2', 'base', 'keys=probe', 'vals=probe', 'prop=C05', 'nkeys=8', 'nvals=2'),
+      T('probe8x2', 'base', 'keys=probe', 'vals=probe', 'prop=C05', 'nkeys=8', 'nvals=2', 'alias=1'),
+      T('probe6x2-asan', 'asan', 'keys=probe', 'vals=probe', 'prop=C05', 'nkeys=6', 'nvals=2', 'alias=1'),
       T('probe10-asan', 'asan', 'keys=probe', 'vals=probe', 'prop=C05', 'nkeys=10', 'nvals=1'),
       T('ladder-int', 'base', 'mode=ladder', 'keys=int', 'sizes=1,2,3,4,5,6,7,8,15,16,17,31,32,33,64,100,255,300,1000,4000,10000'),
       T('ladder-str', 'base', 'mode=ladder', 'keys=str', 'sizes=16,100,300,1000,4000,10000'),
